@@ -20,7 +20,7 @@ rm -f $DEST/zz_seeded_demo_test.go
 echo "seed $PROP/$N: build=$BUILD baseline=$BASE demo_with_change=$DEMO_WITH demo_without=$DEMO_WITHOUT"
 D=/var/tmp/govc-seedcheck/repo; mkdir -p /var/tmp/govc-seedcheck; rsync -a --delete --exclude=.git /repo/ $D/; (cd $D && patch -p1 < $S/patch.diff >/dev/null) || { echo "does not apply to /repo"; exit 9; }
 for p in $CHECKS; do
-  OUT=$(cd /verif && GOVC_REPO=$D ./bin/govc check -p $p -no-evidence 2>&1)
+  OUT=$(cd /verif && GOVC_REPO=$D ${GOVC_BIN:-./bin/govc} check -p $p -no-evidence 2>&1)
   echo "$OUT" | grep -c "^VIOLATION" | sed "s/^/  check $p violations: /"
   echo "$OUT" | grep "^VIOLATION" | sed 's/replay=[^ ]* //' | cut -c1-220 | head -4 | sed 's/^/    /'
 done
